@@ -228,7 +228,9 @@ def apiParse (w : World) (h : Nat) (defs : List Tree) : World × String :=
     else
       let (text, reg) := defs.foldl (fun (acc : TextSet × Bool) tr => addParseTree acc.1 o.name acc.2 tr)
         (ns.text, o.registered)
-      let _ := reg
+      -- the receiver's own text object may have just been registered (it can be shared with the hidden
+      -- object created by `*existing = *emptyTmpl`); its exported Tree field is only touched below
+      let w := w.setObj oid { o with registered := reg }
       let w := w.setNs o.ns { ns with text := text }
       -- for every template of the common set: bind the object of that name to the registered text object
       let w := text.foldl (fun (w : World) (p : String × Option Tree) =>
@@ -239,7 +241,6 @@ def apiParse (w : World) (h : Nat) (defs : List Tree) : World × String :=
         match nlookup w.objs tid with
         | some t => w.setObj tid { t with registered := true, treeNil := p.2.isNone }
         | none => w) w
-      let _ := oid
       (w, "ok")
 
 /-- `t.Clone()` bound to handle h' -/
